@@ -80,6 +80,27 @@ def check_setter(ctx, p, RULE, name):
             ctx.fail(RULE, b.path, "call " + cname, "self passed mutably to another function", cm.loc_of(t["span"]))
 
 
+def getters_verbatim(ctx, p, RULE):
+    """each getter returns its field (or the element at the given stream index) verbatim: what a
+    setter stored is what the getter shows - there is no second, hidden representation of a setting
+    (also run under C03: two conditions with equal getter values are equal conditions)"""
+    for name, (field, indexed) in GETTERS.items():
+        b = cm.body_or_fail(ctx, p, RULE, COND + name)
+        if b is None:
+            continue
+        eb = ExprBuilder(b)
+        ret = eb.local(0)
+        r, ch = root_of(ret)
+        want_chain = [field, "[]"] if indexed else [field]
+        okk = is_self(r) and ch == want_chain
+        if okk and indexed:
+            okk = ret[0] == "idx" and ret[2][0] == "arg" and ret[2][1] == 2
+        if okk:
+            ctx.ok(RULE, "%s returns self.%s" % (name, ".".join(ch)), b.loc())
+        else:
+            ctx.fail(RULE, b.path, "return value", "returns %s, expected self.%s" % (show(ret), ".".join(want_chain)), b.loc())
+
+
 def run(ctx):
     ctx.rule("C20-R1", "each range-limited setter stores T(v) into its own field only, T = the documented clamp; unrestricted setters store the identity")
     ctx.rule("C20-R2", "each getter returns its field (or element at the given stream index)")
@@ -91,21 +112,7 @@ def run(ctx):
         check_setter(ctx, p, "C20-R1", name)
 
     # ---- R2
-    for name, (field, indexed) in GETTERS.items():
-        b = cm.body_or_fail(ctx, p, "C20-R2", COND + name)
-        if b is None:
-            continue
-        eb = ExprBuilder(b)
-        ret = eb.local(0)
-        r, ch = root_of(ret)
-        want_chain = [field, "[]"] if indexed else [field]
-        okk = is_self(r) and ch == want_chain
-        if okk and indexed:
-            okk = ret[0] == "idx" and ret[2][0] == "arg" and ret[2][1] == 2
-        if okk:
-            ctx.ok("C20-R2", "%s returns self.%s" % (name, ".".join(ch)), b.loc())
-        else:
-            ctx.fail("C20-R2", b.path, "return value", "returns %s, expected self.%s" % (show(ret), ".".join(want_chain)), b.loc())
+    getters_verbatim(ctx, p, "C20-R2")
 
     # ---- R3
     b = cm.body_or_fail(ctx, p, "C20-R3", "<engine::Condition as std::default::Default>::default")
